@@ -126,8 +126,10 @@ void hook_forced( const char* name)
    if (std::strcmp( name, "managed_thread.after_start") != 0 || g_round == nullptr)
       return;
    g_hook_seen.fetch_add( 1);
-   // hold the constructor until the thread function is running
-   if (!wait_for( g_round->started, 1, 5000))
+   // hold the constructor until the thread function is running; if the thread has
+   // not been started yet at this point (started in the constructor body) there
+   // is nothing to wait for: give up after 30 ms
+   if (!wait_for( g_round->started, 1, 30))
       g_hook_timeout.fetch_add( 1);
 }
 
@@ -143,6 +145,7 @@ int run_managed( int nobs, int rounds, bool forced)
 {
    celma_verif::set_hook( forced ? hook_forced : hook_free);
    long  inactive_while_running = 0, active_after_join = 0, samples = 0, samples_running = 0;
+   long  free_polls = 0, free_polls_active = 0;
    for (int r = 0; r < rounds; ++r)
    {
       Round  rd;
@@ -171,6 +174,7 @@ int run_managed( int nobs, int rounds, bool forced)
       // anything the managed thread does (only its accesses matter, for TSan)
       std::atomic< int>   stop_poll{ 0};
       std::atomic< long>  polls{ 0};
+      std::atomic< long>  polls_active{ 0};
       std::thread  poller( [&]()
       {
          celma::common::ManagedThread*  mt = nullptr;
@@ -183,6 +187,7 @@ int run_managed( int nobs, int rounds, bool forced)
                ++seen;
             polls.fetch_add( 1, std::memory_order_relaxed);
          }
+         polls_active.fetch_add( seen, std::memory_order_relaxed);
       });
       {
          celma::common::ManagedThread  mt( [&rd]()
@@ -203,15 +208,19 @@ int run_managed( int nobs, int rounds, bool forced)
             t.join();
       }
       samples += nobs;
+      free_polls += polls.load();
+      free_polls_active += polls_active.load();
       samples_running += running.load();
       inactive_while_running += bad.load();
       g_round = nullptr;
    }
    celma_verif::set_hook( nullptr);
    std::printf( "mode=managed observers=%d rounds=%d sched=%s samples=%ld samples_while_running=%ld "
-                "inactive_while_running=%ld active_after_join=%ld hook_seen=%d hook_timeout=%d\n",
+                "inactive_while_running=%ld active_after_join=%ld hook_seen=%d hook_timeout=%d "
+                "free_polls=%ld free_polls_active=%ld\n",
                 nobs, rounds, forced ? "forced" : "free", samples, samples_running,
-                inactive_while_running, active_after_join, g_hook_seen.load(), g_hook_timeout.load());
+                inactive_while_running, active_after_join, g_hook_seen.load(), g_hook_timeout.load(),
+                free_polls, free_polls_active);
    return 0;
 }
 
